@@ -22,6 +22,10 @@ Without(s, e) == SelectSeq(s, LAMBDA x : x # e)
 (* Part 1.  Keys are small integers: 1..3 valid keys (16, 24, 32 bytes);        *)
 (* 4, 5 = wrong length (15 and 33 bytes); 6 = request whose payload does not     *)
 (* decode; 7 = KeyManager call with a key that is not base64 (no query sent).    *)
+(* As in memberlist: only AddKey validates the length; UseKey of a key that is   *)
+(* not installed fails; RemoveKey of the primary key fails, of any other key     *)
+(* (installed or not, well-formed or not) succeeds; every accepted request       *)
+(* rewrites the file.                                                            *)
 ValidKeys == 1..3
 KeyArgs == 1..7
 
@@ -30,10 +34,11 @@ KR(ring, file) == [ring |-> ring, file |-> file]
 
 \* result of one request: [s |-> new state, ok |-> accepted]
 KApply(s, op, k) ==
-  IF k \notin ValidKeys THEN [s |-> s, ok |-> FALSE]                  \* rejected before the keyring is touched
+  IF k \in {6, 7} THEN [s |-> s, ok |-> FALSE]                        \* rejected before the keyring is touched
   ELSE CASE op = "install" ->
-              LET r == IF InSeq(s.ring, k) THEN s.ring ELSE Append(s.ring, k) IN
-              [s |-> KR(r, r), ok |-> TRUE]
+              IF k \notin ValidKeys THEN [s |-> s, ok |-> FALSE]      \* AddKey validates the length
+              ELSE LET r == IF InSeq(s.ring, k) THEN s.ring ELSE Append(s.ring, k) IN
+                   [s |-> KR(r, r), ok |-> TRUE]
          [] op = "use" ->
               IF ~InSeq(s.ring, k) THEN [s |-> s, ok |-> FALSE]
               ELSE LET r == <<k>> \o Without(s.ring, k) IN [s |-> KR(r, r), ok |-> TRUE]
